@@ -94,6 +94,45 @@ def absent_contigs(case):
     return out
 
 
+def reused_objects_leg(case, outcome, ctx, desc, stripped):
+    """The objects of one session are used again: routing depends on the map given, not on what an earlier
+    export left behind in the input assembly or in the Pretext scaffolds."""
+    from tola.assembly.assembly import Assembly
+    from vf.core import build_row, build_scaffolds
+
+    t = case["t"]
+    plain2 = workloads.without_set_aside_tags(case["pretext"])
+    # (a) the curator takes the set-aside tags off again and exports once more, the indexed input still in memory
+    pa, ia = workloads.build_inputs(case)
+    first = workloads.remap_objects(case, pa, ia)
+    again = workloads.remap_objects(case, Assembly("p", scaffolds=build_scaffolds(plain2), bp_per_texel=t), ia)
+    _, ia_fresh = workloads.build_inputs(case)
+    ref2 = workloads.remap_objects(case, Assembly("p", scaffolds=build_scaffolds(plain2), bp_per_texel=t), ia_fresh)
+    ctx.count("reused:second-export-with-set-aside-tags-removed")
+    if first[0] == "ok" and again != ref2:
+        ctx.violation("routing-depends-on-an-earlier-export-from-the-same-input-object",
+                      f"second export (set-aside tags removed) on the input object used before: {str(again)[:600]}\non a fresh one: {str(ref2)[:600]}\n{desc}", stripped)
+        return False
+    # (b) the Pretext scaffolds are first built and shown (their tags listed) without any tag; the tags are
+    # then put on the pieces in place; the export follows the tags the pieces have now
+    bare = [[n, [r if r[0] == "G" else [*r[:5], []] for r in rows]] for n, rows in case["pretext"]]
+    pa_b = Assembly("p", scaffolds=build_scaffolds(bare), bp_per_texel=t)
+    for sc_ in pa_b.scaffolds:
+        sc_.fragment_tags()
+    for sc_, (_, rows) in zip(pa_b.scaffolds, case["pretext"]):
+        for k_, r in enumerate(rows):
+            if r[0] == "F" and r[5]:
+                sc_.rows[k_] = build_row(r)
+    _, ia_b = workloads.build_inputs(case)
+    got_b = workloads.remap_objects(case, pa_b, ia_b)
+    ctx.count("reused:pretext-scaffolds-tagged-after-their-tags-were-listed")
+    if got_b != ("ok", outcome["out"]):
+        ctx.violation("routing-follows-tags-listed-before-the-pieces-were-tagged",
+                      f"pieces tagged in place after fragment_tags() was called: {str(got_b)[:600]}\nfresh objects: {str(outcome['out'])[:600]}\n{desc}", stripped)
+        return False
+    return True
+
+
 def oracle(case, outcome, ctx):
     ctx.case()
     design = case["design"]
@@ -109,6 +148,9 @@ def oracle(case, outcome, ctx):
     om = layout_ref.OutMap(outcome["out"])
     if design.get("haps") or any(pc["kind"] in ("htig", "cont", "fdup") for pc in case["pieces"]) or design.get("target_mode"):
         ctx.nontrivial([case["input"], case["pretext"], case["t"]])
+    if case.get("id") and case["id"][2] % 8 == 3 and case["gen"] in ("tag", "tag2") and not case.get("no_join_gap"):
+        if not reused_objects_leg(case, outcome, ctx, desc, stripped):
+            return
     bad = 0
     for pc, dest in core_destinations(case, om):
         want = expected_keys(pc["expect"], design)
@@ -253,6 +295,9 @@ def plan(tier, seed):
 def gates(c, tier):
     need = {
         "routing-ok:tag": 1500,
+        "reused:second-export-with-set-aside-tags-removed": 500,
+        "reused:pretext-scaffolds-tagged-after-their-tags-were-listed": 500,
+        "label:tag:second-primary-tag-on-scaffold-of-other-haplotype": 50,
         "routing-ok:tag2": 500,
         "routed:htig:painted:later": 50,
         "routed:cont:painted:first": 30,
